@@ -19,6 +19,7 @@ func init() {
 func runC04(cx *ctx) {
 	r := cx.rng
 	c04History(cx)
+	c04FileKeySizes(cx)
 	// files encrypted to a recipient whose public key differs from the identity's in ONE bit:
 	// the identity must not open them (every bit position; sampled in the quick tier, bit 255 and 0 always)
 	{
